@@ -1171,11 +1171,12 @@ func (self *ArbiterVoter) DoProposal() error {
 		self.proposalIndex = self.proposalId
 	}
 	self.proposalIndex++
+	proposalIndex := self.proposalIndex
 	self.glock.Unlock()
 
 	isReject := false
 	responses := self.DoRequests("do proposal", func(member *ArbiterMember) (interface{}, error) {
-		response, err := member.DoProposal(self.proposalIndex, self.voteHost, self.voteAofId)
+		response, err := member.DoProposal(proposalIndex, self.voteHost, self.voteAofId)
 		if err == ProposalRejectError {
 			isReject = true
 		}
@@ -1190,6 +1191,8 @@ func (self *ArbiterVoter) DoProposal() error {
 		return errors.New("member accept proposal count too small")
 	}
 	self.glock.Lock()
+	// a higher number learnt from a refusal only serves the next round: the commit round carries the number that was accepted
+	self.proposalIndex = proposalIndex
 	if self.proposalId < self.proposalIndex {
 		// a higher number accepted or announced in the meantime stays
 		self.proposalId = self.proposalIndex
